@@ -893,6 +893,7 @@ impl<K: KeyT, V: ValT> World<K, V> {
             Elems(Vec<u32>),
             Bool(bool),
         }
+        let mut eq_pair: Option<(bool, bool, bool)> = None;
         // the lazy algebra iterators are Clone + Debug: a clone taken after one step must yield
         // exactly the rest, and formatting must not consume anything
         fn with_clone<'x, K: KeyT + 'x, I: Iterator<Item = &'x K> + Clone + std::fmt::Debug>(mut it: I, collect: &dyn Fn(&mut dyn Iterator<Item = &'x K>) -> Vec<u32>) -> Vec<u32> {
@@ -920,7 +921,14 @@ impl<K: KeyT, V: ValT> World<K, V> {
             SetAlg::IsSubset => Res::Bool(sut(|| sa.s.is_subset(&sb.s))),
             SetAlg::IsSuperset => Res::Bool(sut(|| sa.s.is_superset(&sb.s))),
             SetAlg::IsDisjoint => Res::Bool(sut(|| sa.s.is_disjoint(&sb.s))),
-            SetAlg::Eq => Res::Bool(sut(|| sa.s == sb.s) && sut(|| sb.s == sa.s) == sut(|| sa.s == sb.s)),
+            SetAlg::Eq => {
+                // both directions are judged separately (an asymmetric == must not cancel out)
+                let ab = sut(|| sa.s == sb.s);
+                let ba = sut(|| sb.s == sa.s);
+                let aa = sut(|| sa.s == sa.s);
+                eq_pair = Some((ab, ba, aa));
+                Res::Bool(ab)
+            }
         });
         match co.result {
             Ok(Res::Elems(mut got)) => {
@@ -945,6 +953,11 @@ impl<K: KeyT, V: ValT> World<K, V> {
                 };
                 if got != want {
                     acc.wrong(format!("{:?} = {} expected {}", alg, got, want));
+                }
+                if let Some((ab, ba, aa)) = eq_pair {
+                    if ba != want || !aa {
+                        acc.wrong(format!("set ==: a==b {} b==a {} a==a {} expected {}", ab, ba, aa, want));
+                    }
                 }
                 acc.out.res = format!("{:?} {}", alg, got);
             }
